@@ -159,8 +159,10 @@ CHECKS["C13"] = dict(
          "function: propagate_taint stays within a linear number of worklist pops on every state-flow graph in the bound "
          "(cycles included); analyze_stmts + SimpleWorkList end within the fuel on every single-entry CFG of 4 statements and "
          "analyse no statement more than max_round times; the descent guard (boolean structure and constants read from the "
-         "AST) bounds descents per call site; the folding-cost query exhibits the known exponential case. Whole-pipeline "
-         "time is a measurement and not claimed.",
+         "AST) bounds descents per call site; the folding-cost query exhibits the known exponential case. A program leg "
+         "(measurement, labelled so) runs the real pipeline on 13 hostile shapes (recursion of several kinds, object rings, tainted "
+         "method calls, loop-carried taint, cyclic imports, call chains with two call sites per function): each run ends with exit "
+         "code 0 within a generous bound and the chains need at most 40 n method analyses (a deterministic count).",
     note="Trusted: CrossHair/z3/cvc5, the fuel formulas, the operator cost model (lower bounds on bit length). One open known "
          "finding (unbounded ** / << folding).",
     design="4/C13")
